@@ -45,8 +45,10 @@ RULE = (
     "directory with digits in its path: (i) short histories: a wrapper around "
     "the library's plotter records at its k-th call the schedule it is given "
     "and the bars of the figure it returns - exactly the first k operations; "
-    "through create_gantt_chart_frames, create_gantt_chart_gif and "
-    "GanttChartCreator.create_gif; (ii) frame ORDER in the written file: a "
+    "through create_gantt_chart_frames (recorded history, or a solver whose "
+    "own dispatch sequence is then the history), create_gantt_chart_gif and "
+    "GanttChartCreator.create_gif (also for the second episode on the same "
+    "dispatcher); (ii) frame ORDER in the written file: a "
     "custom plot function draws k = number of scheduled operations as a "
     "binary block pattern, the GIF (and, thorough tier, the mp4) is read back "
     "and decoded; the sequence must be 1..n. Non-trivial: chart with >=2 jobs "
@@ -80,7 +82,10 @@ def strategy(tier):
             "kind": st.just("anim"),
             "inst": gen.instances(min_jobs=2, max_jobs=4, max_ops=4, max_machines=3, max_total=8),
             "history": gen.histories(max_len=10),
-            "mode": gen.pick(["frames", "gif", "creator", "order", "order_creator_history"]),
+            "mode": gen.pick(
+                ["frames", "gif", "creator", "creator_second_episode", "solver", "order", "order_creator_history"]
+            ),
+            "rule": gen.pick(["most_work_remaining", "shortest_processing_time", "first_come_first_served", "most_operations_remaining"]),
         }
     )
 
@@ -320,7 +325,22 @@ def decode(frame):
 def anim_case(case, ctx):
     inst, mode = case["inst"], case["mode"]
     instance = build_instance(inst)
-    d, hist, model = dispatch_history(inst, instance, case["history"])
+    case_creator = None
+    if mode == "creator_second_episode":
+        # the creator is attached before the first episode, as an environment does
+        d0 = Dispatcher(instance)
+        case_creator = GanttChartCreator(d0, gif_config={})
+        d, hist, model = d0, case_creator.history_observer, ref(inst)
+        for k in range(model.n_ops):
+            a, b = case["history"][k] if k < len(case["history"]) else (0, 0)
+            ready = model.ready()
+            j, p = ready[a % len(ready)]
+            ms = inst["machines"][j][p]
+            mm = ms[b % len(ms)]
+            d.dispatch(instance.jobs[j][p], mm)
+            model.apply(j, mm)
+    else:
+        d, hist, model = dispatch_history(inst, instance, case["history"])
     n = model.n_ops
     history = list(hist.history)
     want_prefixes = [
@@ -328,7 +348,32 @@ def anim_case(case, ctx):
     ]
     tmp = tempfile.mkdtemp(prefix="c20_2024_")
     try:
-        if mode in ("frames", "gif", "creator"):
+        if mode == "solver":
+            # frames produced from a solver instead of a recorded history:
+            # the history is the solver's own dispatch sequence
+            from job_shop_lib.dispatching.rules import DispatchingRuleSolver
+
+            solver = DispatchingRuleSolver(case.get("rule", "most_work_remaining"))
+            ref_d = Dispatcher(build_instance(inst), solver.ready_operations_filter)
+            ref_h = HistoryObserver(ref_d)
+            solver.solve(ref_d.instance, ref_d)
+            model = ref(inst)
+            for so in ref_h.history:
+                model.apply(so.operation.job_id, so.machine_id)
+        if mode == "creator_second_episode":
+            # an abandoned first episode on the same dispatcher
+            d.reset()
+            model = ref(inst)
+            second = case["history"][::-1]
+            for k in range(model.n_ops):
+                a, b = second[k] if k < len(second) else (0, 0)
+                ready = model.ready()
+                j, p = ready[a % len(ready)]
+                ms = inst["machines"][j][p]
+                mm = ms[b % len(ms)]
+                d.dispatch(instance.jobs[j][p], mm)
+                model.apply(j, mm)
+        if mode in ("frames", "gif", "creator", "creator_second_episode", "solver"):
             records = []
             inner = get_partial_gantt_chart_plotter()
 
@@ -340,7 +385,11 @@ def anim_case(case, ctx):
                 records.append((rows, bars, makespan, xlim))
                 return fig
 
-            if mode == "frames":
+            if mode == "solver":
+                frames_dir = os.path.join(tmp, "frames_31")
+                os.mkdir(frames_dir)
+                create_gantt_chart_frames(frames_dir, instance, solver, wrapper, True, None)
+            elif mode == "frames":
                 frames_dir = os.path.join(tmp, "frames_07")
                 os.mkdir(frames_dir)
                 create_gantt_chart_frames(frames_dir, instance, None, wrapper, True, history)
@@ -355,6 +404,11 @@ def anim_case(case, ctx):
                 )
                 ctx.check(os.path.exists(os.path.join(tmp, "out_1.gif")), "gif-missing", "no GIF written")
                 ctx.check(not os.path.exists(os.path.join(tmp, "out_1_frames")), "frames-not-removed", "frames dir left behind")
+            elif mode == "creator_second_episode":
+                creator = case_creator
+                creator.gif_config["gif_path"] = os.path.join(tmp, "creator_4.gif")
+                creator.partial_gantt_chart_plotter = wrapper
+                creator.create_gif()
             else:
                 creator = GanttChartCreator(
                     d, gif_config={"gif_path": os.path.join(tmp, "creator_3.gif")}
